@@ -394,6 +394,54 @@ def publickey_request(session_id, user, service, keykind, algorithm, sigvar):
 
 
 # ------------------------------------------------------------------------------------------------
+# Every attribute of the server's auth handler object(s) that the state abstractions of C14-C16 do not name
+# explicitly, as plain data.  On the shipped tree this is constant in server mode (the remaining attributes are
+# client-side: username, password, auth_method, ...), so it costs nothing; a change that makes the handler
+# *remember* something between packets (an accepted key, an earlier answer of the application, a pending
+# challenge) shows up here, and a state key that contains it keeps "after the packet that was remembered" apart
+# from the states it would otherwise be merged with.
+ABSTRACTED_ATTRS = {"transport", "authenticated", "auth_username", "auth_fail_count", "_delegate", "sshgss"}
+
+
+def _plain(v, depth=0):
+    if v is None or isinstance(v, (bool, int, float)):
+        return repr(v)
+    if isinstance(v, str):
+        return repr(v) if len(v) <= 40 else "str:%d:%s" % (len(v), hashlib.sha1(v.encode()).hexdigest()[:12])
+    if isinstance(v, (bytes, bytearray)):
+        return "bytes:%d:%s" % (len(v), hashlib.sha1(bytes(v)).hexdigest()[:12])
+    if depth < 3:
+        if isinstance(v, (tuple, list)):
+            return "(" + ",".join(_plain(x, depth + 1) for x in v) + ")"
+        if isinstance(v, (set, frozenset)):
+            return "{" + ",".join(sorted(_plain(x, depth + 1) for x in v)) + "}"
+        if isinstance(v, dict):
+            return "{" + ",".join(sorted("%s:%s" % (_plain(k, depth + 1), _plain(x, depth + 1))
+                                         for k, x in v.items())) + "}"
+    if hasattr(v, "asbytes"):
+        try:
+            return "%s:%s" % (type(v).__name__, hashlib.sha1(v.asbytes()).hexdigest()[:12])
+        except Exception:  # noqa
+            pass
+    return "<%s>" % type(v).__name__
+
+
+def hidden_state(*handlers):
+    out, done = [], set()
+    for h in handlers:
+        if h is None or id(h) in done:
+            continue
+        done.add(id(h))
+        try:
+            attrs = vars(h)
+        except TypeError:
+            continue
+        for name in sorted(attrs):
+            if name not in ABSTRACTED_ATTRS:
+                out.append((type(h).__name__ + "." + name, _plain(attrs[name])))
+    return tuple(out)
+
+
 def summarise_tx(ptype, raw):
     """Property-relevant abstraction of one packet the server sent."""
     try:
@@ -481,6 +529,7 @@ class Rig:
             "expected": tuple(ts._expected_packet),
             "handler": type(h).__name__,
             "gss_est": bool(sshgss.established) if sshgss is not None else None,
+            "hidden": hidden_state(d, h),
             "exc": type(exc).__name__ if exc is not None else None,
             "channels": len(ts._channels),
             "chan_created": len(CountingChannel.created),
